@@ -381,12 +381,25 @@ def quiesce(w, max_rounds=5):
 
 # ---- oracles -----------------------------------------------------------------------------------
 
+def root_of(w, n):
+    """the original of a re-wrapped / re-tagged copy (same ciphertext)"""
+    seen = set()
+    while w.events.get(n, {}).get("rewrap_of") is not None and n not in seen:
+        seen.add(n); n = w.events[n]["rewrap_of"]
+    return n
+
 def mip03_winner_chain(w):
     """follow, from the creation state, the minimum (ts, idnum) commit among those created on the
     current state; the resulting state of a commit is learnt from any client observed right after it
     applied that commit"""
     result_token = {}
     prev = {}
+    def root(n):
+        # a re-wrapped / re-tagged copy is the same commit (same ciphertext): what applying it leads to is learnt for the original
+        seen = set()
+        while w.events.get(n, {}).get("rewrap_of") is not None and n not in seen:
+            seen.add(n); n = w.events[n]["rewrap_of"]
+        return n
     for i, (cmd, res, fp) in enumerate(w.trace):
         t = cmd.split()
         f = parse_fp(fp)
@@ -400,7 +413,7 @@ def mip03_winner_chain(w):
                 # (directly from the parent state, or after the rollback this delivery triggered)
                 # (an evicted client's state token does not move: nothing to learn from it)
                 if e is not None and before is not None and f["token"] != before["token"] and f["state"] == "a":
-                    result_token.setdefault(n, set()).add(f["token"])
+                    result_token.setdefault(root(n), set()).add(f["token"])
             if t[0] == "merge" and res == "ok" and before is not None and f["token"] != before["token"]:
                 mine = [n for n, e in w.events.items() if e["sender"] == c and e["kind"] == "commit" and e["parent_token"] == before["token"]]
                 if mine:
@@ -451,6 +464,7 @@ def oracle_world(w):
     prev_fp = {}
     gnf_first = {}       # (client, event) -> step at which the event was refused as GroupNotFound because its tag was not the id in force
     w.gnf_first = gnf_first
+    copy_knock = set()   # clients at which a copy of a commit (same ciphertext, another wrapper) invalidated stored messages / records
     for i, (cmd, res, fp) in enumerate(w.trace):
         t = cmd.split()
         if res == "panic" or fp == "fp-panic":
@@ -485,6 +499,15 @@ def oracle_world(w):
                     fail("C08", "routing-not-by-current-id", i, f"`{cmd}`: event tagged I{evr['tag_nid']} at a client holding I{before['nid']} returned {r0}")
                 if r0 == "err:GroupNotFound" and not routed and (c, int(t[2])) not in gnf_first:
                     gnf_first[(c, int(t[2]))] = i
+            if before is not None and f is not None and evr.get("kind") == "commit":
+                n_ev0 = int(t[2])
+                if evr.get("rewrap_of") is not None or any(x.get("rewrap_of") == n_ev0 for x in w.events.values()):
+                    inval = lambda g: {m["id"] for m in g["msgs"] if m["state"] == "x"}
+                    if inval(f) - inval(before) or f["epoch"] < before["epoch"]:
+                        # the same commit under two wrappers: the other wrapper was judged 'better' and the client rolled back —
+                        # also when the re-processing succeeds (the committer's own commit is merged again from the snapshot's
+                        # pending commit): everything filed under the later epoch is invalidated although the state is the same
+                        copy_knock.add(c)
             if before is not None and f is not None:
                 if is_refusal(r0) and proj(before) != proj(f):
                     ev = w.events.get(int(t[2]), {})
@@ -560,12 +583,13 @@ def oracle_world(w):
                     tok0 = parse_fp(fp)["token"]; break
             cur, chain, win_tokens = tok0, [], [tok0]
             while len(chain) < 64:
+                # (a copy of a commit under another wrapper competes with its own MIP-03 key, but leads where the original leads)
                 cands = [n for n, e in commits.items() if e["parent_token"] == cur and n not in chain and not e.get("adv")]
                 if not cands:
                     break
                 best = min(cands, key=lambda n: (commits[n]["ts"], commits[n]["idnum"]))
                 chain.append(best)
-                nxt = rt.get(best)
+                nxt = rt.get(best) or rt.get(root_of(w, best))
                 if not nxt:
                     cur = None; break
                 cur = sorted(nxt)[0]
@@ -618,7 +642,7 @@ def oracle_world(w):
                         # received copies are filed under the receiver's epoch (open finding); the SENDER's own copy
                         # is filed by create_message under its creation epoch and must keep it
                         sig = "own-message-refiled" if c == e["sender"] else "receiver-epoch-tag"
-                    elif any(x["signature"] == "rewrapped-commit-rollback" for x in fails):
+                    elif any(x["signature"] == "rewrapped-commit-rollback" for x in fails) or c in copy_knock:
                         sig = "rewrapped-commit-rollback"   # correctly tagged, but the client was knocked back by a re-wrapped commit
                     else:
                         sig = "winning-message-invalidated"
